@@ -28,6 +28,15 @@
 static unsigned long long g_transitions = 0, g_mismatch = 0, g_asserts = 0, g_random_ops = 0, g_reads = 0;
 static unsigned long long g_states_seen = 0;
 static int g_samples = 0;
+// byte type of the view (documented: char, unsigned char, std::byte): C13_BYTE_KIND 0 char, 1 unsigned char, 2 std::byte
+#if defined(C13_BYTE_KIND) && C13_BYTE_KIND == 1
+typedef unsigned char c13_byte_t;
+#elif defined(C13_BYTE_KIND) && C13_BYTE_KIND == 2
+#include <cstddef>
+typedef std::byte c13_byte_t;
+#else
+typedef char c13_byte_t;
+#endif
 static const char* g_inst = "";
 
 enum op_kind
@@ -153,8 +162,8 @@ struct input_it
 template<typename Len, typename V, sbepp::endian E>
 struct tester
 {
-    using arr_t = sbepp::detail::dynamic_array_ref<char, V, Len, E>;
-    using carr_t = sbepp::detail::dynamic_array_ref<const char, V, Len, E>;
+    using arr_t = sbepp::detail::dynamic_array_ref<c13_byte_t, V, Len, E>;
+    using carr_t = sbepp::detail::dynamic_array_ref<const c13_byte_t, V, Len, E>;
     using size_type = typename Len::value_type;
     static constexpr std::size_t PFX = sizeof(size_type);
     static constexpr std::size_t CANARY = 8;
@@ -176,7 +185,7 @@ struct tester
 
     arr_t view()
     {
-        return arr_t{reinterpret_cast<char*>(base()), PFX + cap};
+        return arr_t{reinterpret_cast<c13_byte_t*>(base()), PFX + cap};
     }
 
     void write_prefix(std::uint64_t n)
@@ -405,7 +414,7 @@ struct tester
                 }
             }
             // read API agrees with the model
-            carr_t ca{reinterpret_cast<const char*>(base()), PFX + cap};
+            carr_t ca{reinterpret_cast<const c13_byte_t*>(base()), PFX + cap};
             g_reads++;
             if(ca.size() != new_size || ca.empty() != (new_size == 0) || sbepp::size_bytes(ca) != PFX + new_size
                || static_cast<std::size_t>(ca.end() - ca.begin()) != new_size
